@@ -8,6 +8,7 @@ Record Num := mkNum {
   zero : T; one : T;
   add : T -> T -> T; sub : T -> T -> T; mul : T -> T -> T; max_ : T -> T -> T;
   gtb : T -> T -> bool; ltb : T -> T -> bool;
+  geb : T -> T -> bool;               (* a >= b: NOT the negation of a < b for a NaN *)
   lt_div : T -> T -> T -> bool;      (* a < b / c *)
   is_inf : T -> bool;
   of_N : N -> T
@@ -16,7 +17,7 @@ Record Num := mkNum {
 Definition NumZ : Num := {|
   T := Z; zero := 0%Z; one := 1%Z;
   add := Z.add; sub := Z.sub; mul := Z.mul; max_ := Z.max;
-  gtb := Z.gtb; ltb := Z.ltb;
+  gtb := Z.gtb; ltb := Z.ltb; geb := Z.geb;
   (* exact for integers: a < b/c <-> a*c < b when c > 0; b/0 = +inf for b > 0 *)
   lt_div := fun a b c => if (c =? 0)%Z then (0 <? b)%Z else if (0 <? c)%Z then (a * c <? b)%Z else (b <? a * c)%Z;
   is_inf := fun _ => false;
@@ -29,7 +30,7 @@ Definition NumQ : Num := {|
   T := Q; zero := 0%Q; one := 1%Q;
   add := fun a b => Qred (Qplus a b); sub := fun a b => Qred (Qminus a b);
   mul := fun a b => Qred (Qmult a b); max_ := Qmax;
-  gtb := fun a b => Qltb b a; ltb := Qltb;
+  gtb := fun a b => Qltb b a; ltb := Qltb; geb := fun a b => negb (Qltb a b);
   lt_div := fun a b c => if Qeq_bool c 0 then Qltb 0 b else Qltb a (Qdiv b c);
   is_inf := fun _ => false;
   of_N := fun n => inject_Z (Z.of_N n)
